@@ -47,6 +47,11 @@ def make_table(spec):
         perm = rs.permutation(len(df))
         for c in df.columns[half:]:
             df[c] = df[c].to_numpy()[perm]
+    if spec.get('collinear'):
+        rs = np.random.RandomState((spec['seed'] + 11) % (2**32))
+        z = rs.normal(size=len(df))
+        for c in df.columns:
+            df[c] = z + spec['collinear'] * rs.normal(size=len(df))
     if spec.get('round'):
         df = df.round(spec['round'])
     if spec.get('levels'):
